@@ -323,6 +323,32 @@ fn c17_run(seed: u64, idx: u64, stats: &mut Stats, replay: Option<&EnvCase>) -> 
         let is_abs = matches!(op, Op::Abs { .. });
         let out = exec::exec(&mem, &mut hs, op);
         stats.steps += 1;
+        // "through abs() of both backends": with the same cwd the two must give the same answer
+        if is_abs {
+            let cwd = std::env::current_dir().map(|c| c.to_string_lossy().into_owned()).unwrap_or_default();
+            if cwd.starts_with('/') && mem.set_cwd(&cwd).is_err() {
+                let _ = mem.mkdir_p(&cwd);
+                let _ = mem.set_cwd(&cwd);
+            }
+            let mo = exec::exec(&mem, &mut hs, op);
+            let so = exec::exec(&Stdfs::new(), &mut hs, op);
+            let _ = mem.set_cwd("/");
+            stats.bump("abs_compared_on_both_backends");
+            let same = match (&mo, &so) {
+                (Outcome::Err(_), Outcome::Err(_)) => true,
+                (a, b) => a == b,
+            };
+            if !same {
+                viol.push(Violation {
+                    property: "C17".into(),
+                    oracle: "abs-both-backends".into(),
+                    step,
+                    sig: format!("abs-backends|{} vs {}", mo.class3(), so.class3()),
+                    detail: format!("{:?} in env {:?} with cwd {}: Memfs {:?} but Stdfs {:?}", op, env, cwd, mo, so),
+                });
+                break;
+            }
+        }
         let vars: Vec<String> = TVARS.iter().filter(|v| t.contains(*v)).map(|v| format!("{}={}", v, var_class(&env, v))).collect();
         let shape = t.replace(|c: char| c.is_alphanumeric() || c == ' ' || c == '.', "").chars().take(12).collect::<String>();
         let class = format!("{}|{}|{}", if is_abs { "abs" } else { "expand" }, shape, vars.join(","));
